@@ -226,7 +226,7 @@ func runHeap(c *Ctx) {
 				// the item is looked up by hashcode(src)
 				fr, _ := core.AsFieldAddr(st.Addr)
 				if lk, ok := fr.Base.(*ssa.Lookup); ok {
-					if call, ok := lk.Index.(*ssa.Call); ok && core.CalleeName(call.Common()) == core.GraphPath+".hashcode" {
+					if call, ok := p.IsHashcodeCall(lk.Index); ok {
 						if core.Strip(call.Common().Args[0]) == dj.Params[1] {
 							srcOK = core.InstrDominates(st, inits[0])
 							srchash = core.Path(lk.Index)
@@ -439,7 +439,7 @@ func runHeap(c *Ctx) {
 	if cur != nil {
 		for _, e := range cur.Edges {
 			if lk, ok := e.(*ssa.Lookup); ok && lk.X == ep.Params[2] {
-				if call, ok := lk.Index.(*ssa.Call); ok && core.CalleeName(call.Common()) == core.GraphPath+".hashcode" && core.Strip(call.Common().Args[0]) == cur {
+				if call, ok := p.IsHashcodeCall(lk.Index); ok && core.Strip(call.Common().Args[0]) == cur {
 					stepOK = true
 				}
 			}
